@@ -227,7 +227,10 @@ FileOf(slot) == LET b == Rec[slots[slot]]
                    ELSE [len |-> b.len, dense |-> FALSE, fill |-> b.fill, chunks |-> b.chunks]
 
 OkOpen(e) == OpenOk(FileOf(e.fileslot), e, FALSE)
-\* (edited: the caller wrote to the handle's public `ehdr` field; from then on only totality is judged)
+\* (after a caller's write to the handle's public `ehdr` field only totality is JUDGED: no listed property says
+\*  whether an accessor reads the header again or remembers what it saw at open.  The handle record nevertheless
+\*  carries the written class / order / e_shstrndx - ElfFile.tla: EditHandle - and agreement with that model of
+\*  today's code is reported as `drift`, which no check counts.)
 OkQ(e) == IF fh = <<>> THEN Out(e) = "closed" ELSE IF fh.edited THEN TRUE ELSE QueryOk(fh.f, fh.eb, e, FALSE)
 
 \* C18: the same query on the complete file (slot "full", of which the opened file is a prefix) gives
@@ -353,7 +356,10 @@ StepsOk(e) ==
             Out(e) = "ok" => (e.res.n <= Len(Buf(e, "buf")) /\ e.res.n <= Val(ZExt(SubSeq(e.count, 1, 2), 8)))
       [] e.op \in {"notes", "iter"} -> Out(e) = "ok" => e.res.n <= Len(Buf(e, "buf"))
       [] OTHER -> TRUE
-DriftOk(e) == IF e.op \in {"sysv_find", "gnu_find"} THEN DriftFind(e) ELSE TRUE
+DriftOk(e) == IF e.op \in {"sysv_find", "gnu_find"} THEN DriftFind(e)
+              ELSE IF e.op = "q" /\ fh # <<>> /\ fh.edited THEN QueryOk(fh.f, fh.eb, e, FALSE)
+              ELSE IF e.op = "sq" /\ sth # <<>> /\ sth.edited /\ ~e.faulted /\ ~sth.hadfault THEN QueryOk(sth.f, sth.eb, e, TRUE)
+              ELSE TRUE
 
 Tag(e) == IF e.op \in {"q", "sq"} THEN e.op \o ":" \o e.name ELSE e.op
 
@@ -390,12 +396,20 @@ Step ==
           /\ fh' = CASE e.op = "session" -> <<>>
                      [] e.op = "open" -> (LET f == FileOf(e.fileslot) o == Open(f, e.es)
                                          IN IF o.ok THEN [f |-> f, eb |-> o, openl |-> l, edited |-> FALSE] ELSE <<>>)
-                     [] e.op = "ehdr_edit" -> IF fh = <<>> THEN fh ELSE [fh EXCEPT !.edited = TRUE]
+                     [] e.op = "ehdr_edit" -> IF fh = <<>> THEN fh
+                                              ELSE [fh EXCEPT !.edited = TRUE,
+                                                              !.eb = EditHandle(@, IF Has(e, "class") THEN e.class ELSE 0,
+                                                                                Has(e, "flip_order") /\ Rec[fh.openl].es = "Any",
+                                                                                IF Has(e, "e_shstrndx") THEN SubSeq(e.e_shstrndx, 1, 2) ELSE <<>>)]
                      [] OTHER -> fh
           /\ sth' = CASE e.op = "session" -> <<>>
                      [] e.op = "sopen" -> (LET f == FileOf(e.fileslot) o == Open(f, e.es)
                                           IN IF o.ok /\ Out(e) = "ok" THEN [f |-> f, eb |-> o, openl |-> l, hadfault |-> FALSE, edited |-> FALSE] ELSE <<>>)
-                     [] e.op = "ehdr_edit" -> IF sth = <<>> THEN sth ELSE [sth EXCEPT !.edited = TRUE]
+                     [] e.op = "ehdr_edit" -> IF sth = <<>> THEN sth
+                                              ELSE [sth EXCEPT !.edited = TRUE,
+                                                               !.eb = EditHandle(@, IF Has(e, "class") THEN e.class ELSE 0,
+                                                                                 Has(e, "flip_order") /\ Rec[sth.openl].es = "Any",
+                                                                                 IF Has(e, "e_shstrndx") THEN SubSeq(e.e_shstrndx, 1, 2) ELSE <<>>)]
                      [] e.op = "sq" -> IF sth # <<>> /\ e.faulted THEN [sth EXCEPT !.hadfault = TRUE] ELSE sth
                      [] OTHER -> sth
           /\ consts' = CASE e.op = "session" -> [x \in {} |-> <<>>]
